@@ -136,20 +136,8 @@ fn single_devs(r: &Rendered) -> Vec<Dev> {
         if t.flip {
             out.push(Dev::Flip(i));
         }
-        // two statements on one line: the line break before a statement becomes a blank
-        if t.slot == Slot::Mws && t.sep == "\n" && i > 0 && r.stmts.iter().any(|e| e.first == i) {
-            // (a label directly followed by `{` on the same line would become a named block: not a layout change)
-            let prev_is_label_colon = r.terms[i - 1].text == ":";
-            // the line break IS the grammar's separator in two places, so removing it there is not a
-            // layout change: after an instruction without operand (`asl` + `asl $10` would read the
-            // second mnemonic as the first one's operand), and before a statement that starts with an
-            // operator character (`* = $1000` would continue the previous expression)
-            let prev_is_bare_mnemonic = r.terms[i - 1].kind == Kind::Mnemonic
-                && r.stmts.iter().any(|e| e.first == i - 1 && e.end == i);
-            let starts_with_operator = matches!(t.kind, Kind::Op) || t.text.starts_with('*');
-            if !(prev_is_label_colon && t.text == "{") && !prev_is_bare_mnemonic && !starts_with_operator {
-                out.push(Dev::Sep(i, " ".to_string()));
-            }
+        if r.joinable(i) {
+            out.push(Dev::Sep(i, " ".to_string()));
         }
     }
     out
